@@ -66,7 +66,7 @@ def upload (last : Nat) (r : RoundIn) : Nat × RoundOut :=
         else if r.uploadOk then (li, .uploaded li c)
         else (last, .errUpload li)
 
-/-! ### `Provider.Provide`: retry loop, the destination is rewound but never truncated -/
+/-! ### `Provider.Provide`: retry loop; the destination is rewound and, when it can be, truncated -/
 
 /-- one `Store.Backup(w)` attempt: the bytes it wrote to `w` before returning, and
 whether it returned nil -/
@@ -80,17 +80,20 @@ def overwrite (file b : List UInt8) : List UInt8 := b ++ file.drop b.length
 
 /-- the `for` loop of `Provide`. `budget` = number of attempts still allowed
 (`p.nRetries + 1` at the start); attempts beyond the scripted list do not happen.
+`trunc` = the destination has a `Truncate(int64) error` method (an *os.File, which is what
+the Uploader passes): every attempt then starts with `Seek(0)` + `Truncate(0)`; otherwise
+it is only rewound and an attempt overwrites in place.
 Returns the destination content, whether `Provide` returned nil, and the attempts used. -/
-def provideLoop : Nat → List Attempt → List UInt8 → Nat → List UInt8 × Bool × Nat
+def provideLoop (trunc : Bool) : Nat → List Attempt → List UInt8 → Nat → List UInt8 × Bool × Nat
   | 0, _, file, used => (file, false, used)
   | _, [], file, used => (file, false, used)
   | budget + 1, a :: rest, file, used =>
-    let file' := overwrite file a.written
+    let file' := if trunc then a.written else overwrite file a.written
     if a.ok then (file', true, used + 1)
-    else provideLoop budget rest file' (used + 1)
+    else provideLoop trunc budget rest file' (used + 1)
 
-def provide (nRetries : Nat) (attempts : List Attempt) : List UInt8 × Bool × Nat :=
-  provideLoop (nRetries + 1) attempts [] 0
+def provide (trunc : Bool) (nRetries : Nat) (attempts : List Attempt) : List UInt8 × Bool × Nat :=
+  provideLoop trunc (nRetries + 1) attempts [] 0
 
 /-! ### a history of writes, rounds and uploader restarts against one remote object -/
 
@@ -152,7 +155,7 @@ def outcomes (s : Sys) : List Ev → List RoundOut
 `round <li|E> <c|F> <E|O|n> <ok|fail>` →
    `err-lastindex` | `skipped` | `err-provide` | `skipped-id` | `uploaded <label> <c>` | `err-upload <label>`
    followed by ` cid=<0|1> last=<n>`
-`provide <nRetries> <xbytes>:<ok|fail> ...` → `<ok|fail> <xfile> attempts=<n>`
+`provide <truncatable 0|1> <nRetries> <xbytes>:<ok|fail> ...` → `<ok|fail> <xfile> attempts=<n>`
 -/
 
 structure DState where
@@ -195,12 +198,12 @@ def step (d : DState) (line : String) : DState × String :=
       let (last', out) := upload d.last r
       ({ last := last' }, s!"{outStr out} cid={if calledCurrentID d.last r then 1 else 0} last={last'}")
     | _, _, _, _ => (d, "bad-op")
-  | "provide" :: n :: atts =>
-    match n.toNat?, atts.mapM attemptTok with
-    | some n, some atts =>
-      let (file, ok, used) := provide n atts
+  | "provide" :: t :: n :: atts =>
+    match (if t == "1" then some true else if t == "0" then some false else none), n.toNat?, atts.mapM attemptTok with
+    | some t, some n, some atts =>
+      let (file, ok, used) := provide t n atts
       (d, s!"{if ok then "ok" else "fail"} {hexOfBytes file} attempts={used}")
-    | _, _ => (d, "bad-op")
+    | _, _, _ => (d, "bad-op")
   | _ => (d, "bad-op")
 
 def init : DState := {}
